@@ -274,7 +274,54 @@ def eval_mirror(case):
     return {'v': v, 'nt': tuple(case), 'out': 'mirror'}
 
 
-REPLAY = {'services': eval_service, 'nodes': eval_node, 'tables': eval_meta, 'mirror': eval_mirror}
+def eval_moved(case):
+    """history: a service with a DECLARED site is validated, emptied, re-connected somewhere (else) and validated again - the
+    declaration still counts the second time"""
+    stype, n_if, new_site = case
+    v = []
+    world.reset_all()
+    t = ExperimentTopology()
+
+    def mk(tag, site, k):
+        n = t.add_node(name=f'{tag}{k}', site=site)
+        c = n.add_component(name='nic', model_type=ComponentModelType.SmartNIC_ConnectX_6)
+        return ([i for i in c.interface_list if i.name.endswith('p1')][0], 'DedicatedPort', site)
+    first = [mk('a', 'S1', k) for k in range(n_if)]
+    second = [mk('b', new_site, k) for k in range(n_if)]
+    ctx = f'[{stype} x{n_if}: declared S1, connected at S1, validated, emptied, connected at {new_site}]'
+    if predict(stype, first, 'S1', None)[0] != 'accept':
+        return {'v': v, 'nt': None, 'out': 'first-not-valid'}
+    try:
+        s = t.add_network_service(name='svc', nstype=ServiceType[stype], interfaces=[p for p, _, _ in first], site='S1')
+        t.validate()
+    except Exception as e:
+        v.append((f'moved/first-validation-rejects/{stype}', f'{type(e).__name__}: {e} {ctx}'))
+        return {'v': v, 'nt': tuple(case), 'out': 'bad'}
+    try:
+        s = t.network_services['svc']
+        for p, _, _ in first:
+            s.disconnect_interface(p)
+        for p, _, _ in second:
+            t.network_services['svc'].connect_interface(p)
+    except Exception as e:
+        v.append((f'moved/reconnect-raises/{stype}', f'{type(e).__name__}: {e} {ctx}'))
+        return {'v': v, 'nt': tuple(case), 'out': 'bad'}
+    exp = predict(stype, second, 'S1', None)
+    try:
+        t.validate()
+        got = 'accept'
+        why = ''
+    except Exception as e:
+        got = 'reject'
+        why = f'{type(e).__name__}: {str(e)[:120]}'
+    if exp[0] != 'unspecified' and got != exp[0]:
+        clause = exp[1].replace(' ', '-') if exp[0] == 'reject' else 'valid'
+        v.append((f'moved/{"accepts-invalid" if got == "accept" else "rejects-valid"}/{clause}',
+                  f'second validate() {got}s ({why}) but the tables say {exp} {ctx}'))
+    return {'v': v, 'nt': tuple(case), 'out': f'moved:{exp[0]}'}
+
+
+REPLAY = {'services': eval_service, 'nodes': eval_node, 'tables': eval_meta, 'mirror': eval_mirror, 'moved': eval_moved}
 
 
 def service_cases(tier):
@@ -319,6 +366,10 @@ def run(report):
                            'properties one at a time, thorough jointly; non-trivial = decided cases')
     for o in ('accept', 'reject', 'refused-at-once'):
         report.require(g['outcomes'].get(o, 0) > 0, f'service outcome {o}')
+    gm = explore_cases(report, 'moved', eval_moved, [(st, n, site) for st in PINNED for n in (1, 2) for site in ('S1', 'S2')], chunk=4,
+                       rule='every service type x 1..2 dedicated ports: declared site S1, connected at S1, validated, every interface '
+                            'disconnected, the same number connected at S1 / S2, validated again against the tables')
+    report.require(gm['outcomes'].get('moved:reject', 0) > 0 and gm['outcomes'].get('moved:accept', 0) > 0, 'moved services accepted and rejected')
     nodes = [(nt, tg) for nt in PINNED_NODES for tg in (None, 'no-site', 'image', 'management_ip', 'component')]
     explore_cases(report, 'nodes', eval_node, nodes, chunk=2, rule='6 node types x (plain | site unset | image | management ip | a component)')
     explore_cases(report, 'mirror', eval_mirror, [(k, d) for k in ('dedicated', 'shared') for d in ('Both', 'RX_Only', 'TX_Only')], chunk=1,
